@@ -37,7 +37,7 @@ def build_api(case):
     from collada import source, geometry
     mesh = collada.Collada()
     srcs = []
-    v = numpy.array(case['fverts'], dtype=numpy.float32).reshape(-1)
+    v = numpy.array(case['fverts'], dtype=numpy.float64 if case.get('dtype64') else numpy.float32).reshape(-1)
     srcs.append(source.FloatSource('vsrc', v, ('X', 'Y', 'Z')))
     il = source.InputList()
     inputs = case['inputs']
@@ -82,7 +82,7 @@ def get_prim(case):
         ts.generateNormals()
     if mode == 'bound-api':
         m = case['mat']
-        M = numpy.array([m[0:4], m[4:8], m[8:12], [0, 0, 0, 1]], dtype=numpy.float32)
+        M = numpy.array([m[0:4], m[4:8], m[8:12], [0, 0, 0, 1]], dtype=numpy.float64 if case.get('mat64') else numpy.float32)
         bg = g.bind(M, {})
         return ts, list(bg.primitives())[0], 'BoundTriangleSet'
     bgs = list(mesh.scene.objects('geometry'))
@@ -137,7 +137,7 @@ def run_poly_case(case):
         mode = case['mode']
         if mode in ('api', 'bound-api'):
             mesh = collada.Collada()
-            v = numpy.array(case['fverts'], dtype=numpy.float32).reshape(-1)
+            v = numpy.array(case['fverts'], dtype=numpy.float64 if case.get('dtype64') else numpy.float32).reshape(-1)
             g = geometry.Geometry(mesh, 'g', 'g', [source.FloatSource('vsrc', v, ('X', 'Y', 'Z'))])
             il = source.InputList()
             il.addInput(0, 'VERTEX', '#vsrc')
@@ -153,7 +153,7 @@ def run_poly_case(case):
         prims = [(pl, type(pl).__name__)]
         if mode == 'bound-api':
             m = case['mat']
-            M = numpy.array([m[0:4], m[4:8], m[8:12], [0, 0, 0, 1]], dtype=numpy.float32)
+            M = numpy.array([m[0:4], m[4:8], m[8:12], [0, 0, 0, 1]], dtype=numpy.float64 if case.get('mat64') else numpy.float32)
             prims.append((list(g.bind(M, {}).primitives())[0], 'Bound' + type(pl).__name__))
         elif mode == 'bound-xml':
             prims.append((list(list(mesh.scene.objects('geometry'))[0].primitives())[0], 'Bound' + type(pl).__name__))
@@ -287,6 +287,21 @@ def run_case(case):
             prim.generateNormals()
             if seq.endswith('twice'):
                 prim.generateNormals()
+            if 'edit' in seq:
+                # the caller keeps the arrays it was given, rewrites the vertex positions IN PLACE (the very
+                # reason to regenerate normals) and regenerates
+                held = (prim.normal, prim.vertex)
+                em = case['edit_mat']
+                E3 = numpy.array([em[0:3], em[4:7], em[8:11]], dtype=numpy.float64)
+                Et = numpy.array([em[3], em[7], em[11]], dtype=numpy.float64)
+                V = prim.vertex
+                V[:] = numpy.asarray(V, dtype=numpy.float64).dot(E3.T) + Et
+                P = numpy.asarray(prim.vertex, dtype=numpy.float64)
+                obs['verts'] = exact_rows(P)
+                obs['face'] = ([], 1)          # the implicit normals above belong to the former positions
+                fn = ref_face_normals(P, tris)
+                prim.generateNormals()
+                del held
             N, NI = check_generated(prim, site, P, fn)
         except Exception as e:  # noqa
             fail('vertex-sum', site, 'generateNormals raised %r' % (e,))
